@@ -72,6 +72,7 @@ def draw_knobs(rng: Rng, profile: str):
         reset_on_drain=kr.chance(0.6),
         children=faulty and kr.chance(0.25),
         hash_salt=kr.randrange(1 << 30),
+        dup_names=kr.chance(0.2),
     )
     return knobs
 
@@ -113,7 +114,7 @@ class PoolScenario:
             plan["spawn_fail"] = r.pick(["enoent", "enoent", "eagain"])
         if kn["spawn_wait"] and r.chance(0.25):
             plan["spawn_wait"] = True
-        if kn["log_fail"] and r.chance(0.15):
+        if kn["log_fail"] and not kn.get("dup_names") and r.chance(0.15):
             plan["log_fail"] = [r.pick(["stdout", "stderr"]), r.pick(["open", "write"])]
         if kn["children"] and r.chance(0.5):
             plan["children"] = True
@@ -303,7 +304,8 @@ class PoolScenario:
 
     def run(self):
         kn = self.knobs
-        w = PoolWorld(self.trace, kn["cores"], self.props, hash_salt=kn.get("hash_salt", 0))
+        w = PoolWorld(self.trace, kn["cores"], self.props, hash_salt=kn.get("hash_salt", 0),
+                      dup_names=kn.get("dup_names", False))
         self.world = w
         try:
             with w:
